@@ -312,6 +312,9 @@ func (w *shapeWorld) prepare(c shapeCase) func() error {
 			tip = s.Live[id]
 		}
 		t := w.freshTrx(true, 0)
+		// the transaction is awaiting on this node: a vertex gossip that is refused must leave it awaiting
+		_ = w.n.hc.SaveAwaitedTransaction(&t)
+		w.track(t.Hash)
 		v, _ := accountant.NewVertex(t, tip.Hash, tip.Hash, tip.Weight+1, w.peer)
 		pv := vertexToProto(&v)
 		pv.Hash = bytesClass(sh["vhash"], v.Hash[:])
